@@ -98,7 +98,15 @@ func (m *MMap) Size() (int64, error) {
 }
 
 func (m *MMap) ResetFileSize() error {
-	return m.file.Truncate(m.virtualSize)
+	if err := m.file.Truncate(m.virtualSize); err != nil {
+		return err
+	}
+	// 文件缩小后原映射区域超出文件末尾的部分不可再访问
+	// 收缩记录的映射右边界, 使后续写入通过 remap 重新扩展文件并建立映射
+	if m.endOff > m.virtualSize {
+		m.endOff = m.virtualSize
+	}
+	return nil
 }
 
 // 如果有必要, 扩展映射区域
